@@ -297,5 +297,5 @@ MENU_QUICK = [
 MENU_THOROUGH = MENU_QUICK + [
     "G:quad8", "G:hex8", "G:wedge6i",
     "V:S:s2:DISPLACEMENT", "V:P:s2:T", "V:S:s1:EN", "V:P:s1:E",
-    "V:S:s1:BADCOL_EN", "V:P:s2:NONAME", "NSX:S", "ESX:P", "V:S:s1:BADVAL", "ES2:S", "V:S:s1:ENSUB",
+    "V:S:s1:BADCOL_EN", "V:P:s2:NONAME", "NSX:S", "ESX:P", "V:S:s1:BADVAL", "ES2:S", "V:S:s2:ENSUB",
 ]
